@@ -1,6 +1,6 @@
 import TrackpyV.Model.Proto
 import TrackpyV.Model.Pack
-import TrackpyV.Model.Lsq
+import TrackpyV.Model.LsqJac
 
 /-! Driver ops for C15 (packing + gradient mirror).  All fields are whitespace separated integers;
 lists are length-prefixed; float64 values travel as their IEEE bit pattern (exact both ways).
@@ -91,11 +91,6 @@ def handleUnpack (rest : String) : String :=
     pure out
   r.getD "bad-op"
 
-/-- rows <-> columns of a rectangular array with `w` columns (glue between the row-major rows the
-residual reads and the column model of `Pack`) -/
-def transpose {β} [Inhabited β] (w : Nat) (rows : List (List β)) : List (List β) :=
-  (List.range w).map (fun i => rows.map (fun r => r.getD i default))
-
 def geoOf : Nat → Option Geo
   | 0 => some .iso2 | 1 => some .aniso2 | 2 => some .iso3 | 3 => some .aniso3 | _ => none
 def fnOf : Nat → Option Fn
@@ -116,10 +111,6 @@ def pCluster (ndim : Nat) : P RawCluster := do
   let masks ← pMany ncf (pMany npix (do let b ← pNat; pure (b != 0)))
   pure ⟨indices, image.toArray, mesh.toArray, (masks.map List.toArray).toArray⟩
 
-def mkFeat (g : Geo) (j : Nat) (row : List Float) : Feat Float :=
-  { id := j, bg := row.getD 0 0.0, signal := row.getD 1 0.0,
-    θ := (row.drop 2).take g.nShape, fp := row.drop (2 + g.nShape) }
-
 structure Built where
   cl : Cluster Float
   nNan : Nat
@@ -128,8 +119,8 @@ structure Built where
 
 /-- turns the arrays of one cluster into the `Cluster` the generic formulas take: NaN pixels
 (`nanPix`) are dropped, `act` = mask and above the `safe_exp` cut (`aboveCut`) -/
-def build (g : Geo) (fn : Fn) (nd : Float) (rows : Array (List Float)) (rc : RawCluster) : Built :=
-  let feats := rc.indices.zipIdx.map (fun (i, j) => mkFeat g j (rows.getD i []))
+def build (g : Geo) (fn : Fn) (nd : Float) (rows : List (List Float)) (rc : RawCluster) : Built :=
+  let feats := featsOf g rows rc.indices
   let npix := rc.image.size
   let masked (j q : Nat) : Bool := (rc.masks.getD j #[]).getD q false
   let isNan (q : Nat) : Bool :=
@@ -158,26 +149,24 @@ def lsqP : P String := do
   let ncl ← pNat
   let raws ← pMany ncl (pCluster g.ndim)
   if nvars != 2 + g.nShape + fn.nParams then pure "err=nvars" else
-  match unpack n G modes vect (transpose nvars pconst) with
+  let pcols := transpose nvars pconst
+  match unpack n G modes vect pcols with
   | none => pure "err=unpack"
   | some cols =>
     let rows := transpose n cols
-    let rowsA := rows.toArray
     let nd : Float := ((g.ndim : Nat) : Float)
-    let built := raws.map (build g fn nd rowsA)
-    let cls := built.map (·.cl)
-    let res := residual g fn nd norm cls
-    -- result = params.copy(); result[indices] = rows of the cluster   (L311, L335-337)
-    let result : Array (List Float) := (raws.zip cls).foldl (fun acc (rc, c) =>
-      (rc.indices.zip (gradRows g fn nd c)).foldl (fun a (i, row) => a.setIfInBounds i row) acc) rowsA
-    match pack (sumOp (0.0 : Float)) G modes (transpose nvars result.toList) with
-    | none => pure "err=pack"
-    | some jv =>
-      let jac := jv.map (· / norm)
+    -- Float only: the masks at the unpacked parameters; everything else is `Model/LsqJac.lean`
+    let built := raws.map (build g fn nd rows)
+    let frames := (raws.zip built).map (fun (rc, b) =>
+      ({ indices := rc.indices, act := b.cl.act, L := b.cl.L, pixels := b.cl.pixels } : Frame Float))
+    match objective g fn nd norm n G modes pcols frames vect,
+        jacobian g fn nd norm n G modes pcols frames vect with
+    | some res, some jac =>
       let sumN (f : Built → Nat) := (built.map f).foldl (· + ·) 0
       let jacS := showFloats jac
       let pS := showFloats rows.flatten
       pure s!"res={showFloat res} jac={jacS} nan={sumN (·.nNan)} cut={sumN (·.nCut)} act={sumN (·.nAct)} p={pS}"
+    | _, _ => pure "err=pack"
 
 def handleLsq (rest : String) : String :=
   let r : Option String := do
